@@ -493,6 +493,8 @@ def run(ctx):
     # queue would make the next would-block SSL call of an ESTABLISHED connection look like a protocol error
     from . import C02 as c02
     from . import C07 as c07
+    r12 = ctx.rule("C18.R12", "credential files are read to end-of-file: a short read(2) does not end the load")
+    check_loader_reads_to_eof(P, r12)
     r11 = ctx.rule("C18.R11", "a failed credential load or handshake leaves the thread's OpenSSL error queue empty: established connections are not affected")
     c02.check_store_queue_clean(P, r11)
     pe = P.fn("process_ssl_event")
@@ -569,3 +571,48 @@ def check_ns_templates(P, rule):
             rule.violation("%s:ns-template" % f.name, "%s: %s - in a named network namespace this item is read from another namespace's (or another item's) file" % (f.name, why), loc=f.loc(c))
         else:
             rule.ok("%s: `%s` / `%s`" % (f.qname, dv, nv), "literal agreement")
+
+
+def check_loader_reads_to_eof(P, rule):
+    """credentials, trust anchors and revocation lists are files read whole.  A loop over fread() may stop at a short
+    count (fread itself reads on until end-of-file or an error); a loop over read(2) may not - a short read is what
+    pipes, FIFOs, /proc/self/fd/N and network file systems return in the middle of a file, and whatever follows (the
+    current CRL after the superseded one) is silently dropped.  For read(2)/recv the only end-of-file is the result 0."""
+    RAW = ("read", "pread", "recv")
+    n = 0
+    for f in P.functions:
+        if not f.file.endswith("common/util.c"):
+            continue
+        calls = [c for c in f.calls() if (f.nodes[c].get("callee") or "") in RAW + ("fread",)]
+        if not calls or "load" not in f.name:
+            continue
+        n += 1
+        rule.instance("%s: %s" % (f.qname, ", ".join(sorted({f.nodes[c]["callee"] for c in calls}))))
+        bad = []
+        for c in calls:
+            if f.nodes[c]["callee"] not in RAW:
+                continue
+            # the variable holding the result
+            res = None
+            par = f.parents()
+            x = par.get(c)
+            while x is not None and f.nodes[x]["k"] in ("cast", "paren"):
+                x = par.get(x)
+            if x is not None and f.nodes[x]["k"] == "decl":
+                res = [v["name"] for v in f.nodes[x]["vars"] if v.get("init") is not None and f.strip(v["init"]) == c][:1]
+            elif x is not None and f.nodes[x]["k"] == "bin" and f.nodes[x]["op"] == "=":
+                res = [f.sn(f.nodes[x]["l"]).get("name")]
+            for b, cond in C.cond_blocks(f):
+                l, op, r = C.cond_atom(f, cond, True)
+                ln = f.nodes[f._strip0(l)] if not isinstance(l, tuple) else {}
+                if ln.get("k") == "ref" and res and ln.get("name") == res[0]:
+                    cv = r[1] if isinstance(r, tuple) else C.const_of(f, r)
+                    if cv != 0:
+                        bad.append((cond, f.show(cond)))
+        if bad:
+            rule.violation("%s:short-read-as-eof" % f.name, "%s ends its loop over read(2) on `%s`: a short read is not end-of-file, the rest of the file (a later certificate, "
+                           "the current revocation list) is dropped without an error" % (f.name, bad[0][1][:40]), loc=f.loc(bad[0][0]))
+        else:
+            rule.ok("%s reads until end-of-file" % f.qname, "fread short count / read(2) result 0 only")
+    if n < 1:
+        raise Broken("loader-eof: no file loader found in util.c")
